@@ -4,3 +4,5 @@ import Dtr.Props.C18
 #print axioms Dtr.C18_io_keeps_variables
 #print axioms Dtr.C18_vars_after_row
 #print axioms Dtr.C18_expansion_keeps_context
+#print axioms Dtr.C18_vars_behind_io_error
+#print axioms Dtr.C18_eval_error_keeps_variables
